@@ -126,8 +126,11 @@ Struct(b) ==
 Muts(b) == Valid(b) \cup Trunc(b) \cup ByteMut(b) \cup BodyLenMut(b) \cup FieldsLenMut(b) \cup Swap(b) \cup BadNames(b) \cup Struct(b)
 Cases == UNION {Muts(b) : b \in Bases}
 
+(* root -> base -> case, so that the workers mutate the bases in parallel *)
 VARIABLE c
-Init == c \in Cases
-Next == UNCHANGED c
-Emit == PrintT(<<"CASE", ToJson(c)>>)
+IsCase == "cls" \in DOMAIN c
+Init == c = [root |-> TRUE]
+Next == \/ ("root" \in DOMAIN c /\ c' \in {[b |-> b] : b \in Bases})
+        \/ ("b" \in DOMAIN c /\ c' \in Muts(c.b))
+Emit == IsCase => PrintT(<<"CASE", ToJson(c)>>)
 =============================================================================
